@@ -26,19 +26,19 @@ PROP = {
             "leaves are merged and freed), sessions with COMMIT / ROLLBACK, VACUUM, flush, close+reopen; page size {4096, 8192} x cache "
             "{64, 10000}; every history ends with VACUUM and a reopen; the whole file is dumped and judged after every statement. "
             "All derived from VERIF_SEED. Non-trivial = a case of >= 10 operations; distinct = distinct case line. "
-            "Region split of the sql histories (tags): `clean` 8 of 11 (rows <= 64 bytes, <= 2 tables and 1 index alive, VACUUM at least "
-            "every ~14 row operations, a row updated at most twice between two VACUUMs, no DDL inside rolled-back sessions: no overflow chain "
-            "ever appears, no known finding applies, any failure is a violation); `bigcell` 1 of 11 (rows from 10 bytes to 6 pages); "
-            "`bigcat` 1 of 11 (small rows, up to 5 tables + 4 indexes, no periodic VACUUM: the catalog's own rows grow overflow chains); "
-            "`ddlrb` 1 of 11 (CREATE / DROP inside rolled-back sessions). All seq cases are clean.",
+            "Region split of the sql histories (tags): `clean` 9 of 11 (rows <= 64 bytes, <= 2 tables and 1 index alive, VACUUM at least "
+            "every ~14 row operations, a row updated at most twice between two VACUUMs; family `ovf`: rows up to 6 pages in tables that never hold "
+            "more than 2 cells, so overflow chains are built, grown, shrunk, freed and reused but no divider ever exists; family `ddlrb`, 1 of "
+            "11: CREATE / DROP inside rolled-back sessions; no known finding applies, any failure is a violation); `bigcell` 1 of 11 (rows "
+            "from 10 bytes to 6 pages in tables that split); `bigcat` 1 of 11 (small rows, up to 5 tables + 4 indexes, no periodic VACUUM: "
+            "the catalog's own rows grow overflow chains). All seq cases and the two `iter` probes are clean.",
     "assumptions": [
         "a `seq` case in which dealloc / link names a page id >= total_pages (at that moment) is malformed by definition (dealloc_page of a "
         "page outside the file modifies the header before it fails to read the page; no caller does that)",
         "allocator model: the cache is large enough, or the page sequence short enough, that the *kind* of a cached frame is what the last "
         "operation left (tracked as `ovf`); after flush/reopen no frame is cached and a reader decides how the bytes are interpreted",
-        "which catalog rows own a tree is decided by the harness from the physical rows of the meta table (creator, deleter and the header's "
-        "aborted-transaction bitmap): no deleter -> owns; deleter and creator rolled back -> does not; deleter rolled back -> owns (mark d); "
-        "deleter committed or still running -> does not (DROP frees the pages at once)",
+        "every physical row of the meta table owns the tree it names, whatever its visibility (since fix 190eaa6 DROP only marks the row "
+        "deleted; VACUUM releases the tree when it removes the row); the rows are read through an ordinary read-only tree iterator",
         "the dump is taken by the C10 facade (verif::btree::dump_file): page bytes come from the cached frame if there is one, else from disk; "
         "a page that is not cached is read as a B-tree page iff a walk from the roots reaches it as a node",
         "reuse before growth is judged between consecutive statements: the file must not grow while the whole free list of the earlier step is "
@@ -56,7 +56,7 @@ PROP = {
     "trusted": [
         "facade crates/axmos-db/src/verif/pager.rs (raw pager driver, catalog roots) and verif/btree.rs (page parser, chain walk)",
         "Lean driver AxVerif/Driver/Pager.lean: parsing of observations and the page table kept across the deltas of one history",
-        "harness rule deciding which catalog rows own a tree (see assumptions)",
+        "the facade's reading of the meta table (which roots exist)",
     ],
 }
 
